@@ -45,6 +45,14 @@ def _num(t):
             return None
 
 
+TIER = "quick"
+
+
+def budget(n):
+    """number of random cases: the thorough tier explores ten times as many"""
+    return n * 10 if TIER == "thorough" else n
+
+
 def write_replay(pid, key, payload):
     d = os.path.join(VERIF, "replays")
     os.makedirs(d, exist_ok=True)
@@ -60,6 +68,8 @@ def main(pid, search_fn, replay_fn):
     """search_fn(failed_item, seed) -> None | dict(payload..., tag=?) ; replay_fn(payload) -> (ok: bool, text)"""
     if sys.argv[1] == "--search":
         req = json.load(open(sys.argv[2]))
+        global TIER
+        TIER = req.get("tier", "quick")
         results = {}
         for item in req["failed"]:
             try:
